@@ -197,7 +197,7 @@ def boundary_draws(weights):
     vals = {0, 1, max(acc[-1] - 1, 0), max(acc[-1] - 2, 0), acc[-1] // 2}
     for a in acc:
         vals |= {a - 1, a, a + 1}
-    return sorted(v for v in vals if 0 <= v <= max(acc[-1] - 1, 0))
+    return sorted(v for v in vals if v >= 0)  # FixedSource clips into the range the function asks for
 
 
 def run(tier: str, seed: int) -> dict:
